@@ -368,6 +368,7 @@ func checkProperty(P *Program, verifDir, prop, tier string, opts VerifyOpts) int
 		name  string
 	}
 	picks := map[string]pick{}
+	known := loadKnown(filepath.Join(verifDir, "known_findings.json"))
 	for _, lj := range results {
 		primary := strings.HasPrefix(lj.Lemma, "lemma_"+prop+"_")
 		for _, o := range lj.Obligations {
@@ -378,6 +379,9 @@ func checkProperty(P *Program, verifDir, prop, tier string, opts VerifyOpts) int
 				continue
 			}
 			bn := baseName(o.Name)
+			if kf := findKnown(known, prop, bn); kf != nil && kf.Status == "known" {
+				continue // a recorded finding: its witness is in known_findings.json
+			}
 			if p, ok := picks[bn]; !ok || lj.WallMs < p.lemma.WallMs {
 				picks[bn] = pick{lj, o.Name}
 			}
@@ -408,7 +412,6 @@ func checkProperty(P *Program, verifDir, prop, tier string, opts VerifyOpts) int
 	}
 	wg.Wait()
 
-	known := loadKnown(filepath.Join(verifDir, "known_findings.json"))
 	// aggregate by obligation base name
 	type agg struct {
 		name    string
